@@ -290,12 +290,13 @@ def native_search(seed):
             exe = build.build_native(sc)
             cands = []
             for n in (7, 14, 3, 4, 20):
-                for _ in range(60):
-                    cands.append(bytes([n]) + bytes(rnd.getrandbits(8) for _ in range(n)))
+                for extra in (0, 1, 4):
+                    for _ in range(25):
+                        cands.append(bytes([n, extra]) + bytes(rnd.getrandbits(8) for _ in range(n + extra)))
                 for i in range(n):
                     b = bytearray(n)
                     b[i] = 1 << rnd.randrange(8)
-                    cands.append(bytes([n]) + bytes(b))
+                    cands.append(bytes([n, 0]) + bytes(b))
             for c in cands:
                 rc, txt, dt = sh([exe, "crc_native", c.hex()], timeout=60)
                 if "FAILED-OBLIGATION" in txt or "PANIC" in txt:
